@@ -35,18 +35,27 @@ Inductive case :=
    parameters; evs: enter/exit log of the stubs with the path each was called with; res:
    what the endpoint proxy returned *)
 | CSeq (lvl : nat) (ts : list tmpl) (pats : list string) (outs : list outcome) (ps0 : params)
-       (evs : list event) (res : result).
+       (evs : list event) (res : result)
+(* config Init + default factory, every backend behind the real HTTP proxy with a stub
+   executor: hs = per backend the status mode of its configuration and the HTTP reply *)
+| CSeqH (ts : list tmpl) (pats : list string) (hs : list (hmode * hreply)) (ps0 : params)
+        (evs : list event) (res : result).
+
+Definition check_seq (ts : list tmpl) (pats : list string) (outs : list outcome) (ps0 : params)
+           (evs : list event) (res : result) : bool * bool :=
+  let '(mevs, mres) := seq_run ts outs ps0 in
+  (Nat.eqb (List.length ts) (List.length outs) &&
+   list_eqb str_eqb (map render ts) pats &&
+   list_eqb event_eqb mevs evs &&
+   resp_corr (payload_datas (called outs)) (fst mres) (fst res) &&
+   rerr_eqb (snd mres) (snd res),
+   spec_b ts outs ps0 (evs, res)).
 
 Definition check_case (c : case) : bool * bool :=
   match c with
-  | CSeq _ ts pats outs ps0 evs res =>
-      let '(mevs, mres) := seq_run ts outs ps0 in
-      (Nat.eqb (List.length ts) (List.length outs) &&
-       list_eqb str_eqb (map render ts) pats &&
-       list_eqb event_eqb mevs evs &&
-       resp_corr (payload_datas (called outs)) (fst mres) (fst res) &&
-       rerr_eqb (snd mres) (snd res),
-       spec_b ts outs ps0 (evs, res))
+  | CSeq _ ts pats outs ps0 evs res => check_seq ts pats outs ps0 evs res
+  | CSeqH ts pats hs ps0 evs res =>
+      check_seq ts pats (map (fun x => http_outcome (fst x) (snd x)) hs) ps0 evs res
   end.
 
 Fixpoint failing (i : nat) (cs : list case) : list verdict :=
